@@ -2,6 +2,7 @@ package main
 
 import (
 	"fmt"
+	"go/types"
 
 	"golang.org/x/tools/go/ssa"
 )
@@ -339,4 +340,43 @@ func cellsWritten(fn *ssa.Function, blocks map[*ssa.BasicBlock]bool, out map[str
 func sharedCell(a *ssa.Alloc) bool {
 	_, ok := sharedCellKey(a)
 	return ok
+}
+
+// bodyAcquires: the given blocks of fn (or code they run in place) call a lock acquisition
+// (Lock, RLock, Cond.Wait) directly.
+func (e *Exec) bodyAcquires(fn *ssa.Function, blocks map[*ssa.BasicBlock]bool, depth int) bool {
+	if depth > 4 {
+		return true
+	}
+	for _, b := range fn.Blocks {
+		if blocks != nil && !blocks[b] {
+			continue
+		}
+		for _, in := range b.Instrs {
+			ci, ok := in.(ssa.CallInstruction)
+			if !ok {
+				continue
+			}
+			cc := ci.Common()
+			name := ""
+			if cc.IsInvoke() {
+				name = cc.Method.Name()
+				if rt, ok := cc.Value.Type().(*types.Named); ok && rt.Obj().Pkg() != nil && rt.Obj().Pkg().Path() == "sync" && (name == "Lock") {
+					return true
+				}
+				continue
+			}
+			if f := cc.StaticCallee(); f != nil {
+				if f.Pkg != nil && f.Pkg.Pkg.Path() == "sync" && (f.Name() == "Lock" || f.Name() == "RLock" || f.Name() == "Wait") {
+					return true
+				}
+				if callee := e.inlineTarget(cc); callee != nil {
+					if e.bodyAcquires(callee, nil, depth+1) {
+						return true
+					}
+				}
+			}
+		}
+	}
+	return false
 }
